@@ -120,7 +120,7 @@ pub fn spec() -> PropSpec {
             PropCheck::new("drop-subsets", |ctx| {
                 let cfg = SeqCfg { max_ops: if ctx.tier == Tier::Thorough { 16 } else { 10 }, drop_pct: 40, force_pct: 8, chunk_change_pct: 8, len_cap: 1500 };
                 (gen::msg_seq(cfg), any::<u32>()).prop_map(|(seq, sample)| Case { seq, sample }).boxed()
-            }, 3_000, 120_000, eval),
+            }, 60_000, 1_500_000, eval),
         ],
     }
 }
